@@ -12,10 +12,13 @@ EXPLANATION = (
     "pre_vote_received (any two majorities intersect) and (R28e) the leader's commit rule (strict majority, entry of the "
     "current term, acknowledgements that prove the follower holds the leader's log), re-evaluated here.")
 DECIDED = ["R29a election restriction table and its dominance over both grants (TABLE + DOM)",
-           "R27c strict majorities (re-evaluated)", "R28e the leader's commit rule (re-evaluated)"]
+           "R27a-g election safety: one vote per term, durable, counted for the right election (re-evaluated, shared with C27)",
+           "R28a-f term fencing of the append path, commit rule, reconciliation (re-evaluated, shared with C28)"]
 UNDECIDED = ["the election-restriction argument itself (leader completeness over schedules; needs execution)"]
 
 CL = R.CL
+# R27e / R27f (vote durability, votes of this election) are violated on the pinned tree: known findings, with a
+# C29-specific demonstration each (findings/server/F17_C29_demo.rs, F20_C29_demo.rs: a later leader lacks a committed entry)
 FIELDS = ("log_index", "log_term", "log_commit")
 
 
@@ -43,7 +46,21 @@ def rule_election_restriction(ctx, rule="R29a"):
 
 def run(ctx):
     rule_election_restriction(ctx)
-    R.rule_majority(ctx, "R27c")
-    C28.rule_commit_quorum(ctx, "R28e")
-    C28.rule_prev_check(ctx, "R28e")
+    # leader completeness rests on election safety (one leader per term: a second leader of the same term is elected
+    # without the first one's entries) and on the fencing / log-matching rules of the append path (a deposed leader
+    # must not get acknowledgements): the rules of C27 and C28 are re-evaluated here, including R27c / R28e
+    R.rule_leader_term_is_vote_term(ctx)
+    R.rule_grant_dominated(ctx, "R27a", ["validate_hash", "validate_vote_state", "validate_term_for_vote", "validate_log_for_vote"])
+    R.rule_reject_tables(ctx)
+    R.rule_majority(ctx)
+    R.rule_who_leader(ctx)
+    R.rule_vote_durable(ctx)
+    R.rule_votes_of_this_election(ctx)
+    C28.rule_reconcile_from_commit(ctx)
+    C28.rule_commit_monotone(ctx)
+    C28.rule_validated_first(ctx)
+    C28.rule_accept_above_commit(ctx)
+    C28.rule_remove_uncommitted_only(ctx)
+    C28.rule_commit_quorum(ctx)
+    C28.rule_prev_check(ctx)
     return 0
